@@ -5,6 +5,7 @@
     instructions cannot branch, exit with a check or a panic, or recall. *)
 From Aranya Require Import base.Tactics model.VmBase gen.GenVm model.Vm model.Lang model.Typing
   model.Compile model.CompileDirect proofs.SimBase proofs.CompileEqns proofs.CompileLayout.
+Local Open Scope string_scope.
 Local Open Scope N_scope.
 
 (** ** Finish code: whitelisted expressions, write statements and finish-function calls only *)
@@ -315,8 +316,7 @@ Proof. induction l; cbn; auto; rewrite forallb_app, IHl; reflexivity. Qed.
 Lemma nowr_d_tests p vals arm : forallb nowr (d_tests p vals arm) = true.
 Proof.
   induction vals as [|[l|w x] r IH]; cbn [d_tests]; auto.
-  - rewrite !forallb_app, nowr_d_lit, IH. reflexivity.
-  - cbn. exact IH.
+  rewrite !forallb_app, nowr_d_lit, IH. reflexivity.
 Qed.
 Lemma nowr_d_patterns p pats : forall addrs, forallb nowr (d_patterns p pats addrs) = true.
 Proof.
@@ -367,7 +367,7 @@ Section ScanCode.
     unfold d_call, builtin_instr.
     repeat match goal with |- context [if ?c then _ else _] => destruct c; [reflexivity|] end. reflexivity.
   Qed.
-  Lemma d_call_nowr f : negb (is_write (d_call la f)) = true.
+  Lemma d_call_nowr f : nowr (d_call la f) = true.
   Proof.
     unfold d_call, builtin_instr.
     repeat match goal with |- context [if ?c then _ else _] => destruct c; [reflexivity|] end. reflexivity.
@@ -377,11 +377,38 @@ Section ScanCode.
     repeat match goal with
            | H : _ && _ = true |- _ => apply andb_prop in H; destruct H
            end.
-  (* step through code outside finish: sub-pieces by induction hypothesis, single
-     instructions by computation *)
+  Ltac ih_out :=
+    first
+    [ assumption
+    | solve [apply scan_of_nowr; auto using nowr_d_patterns, nowr_d_arm_head, nowr_cmp]
+    | match goal with
+      | IH : forall pc : N, _ |- scan false (_ ?pc' _) = true =>
+        first [ apply (proj1 (IH pc')); assumption
+              | apply (proj1 (proj1 (IH pc'))); assumption
+              | apply (proj1 (proj1 (proj2 (IH pc')))); assumption
+              | apply (proj1 (proj2 (proj2 (IH pc')))); assumption ]
+      end
+    | match goal with
+      | IH : forall pc endl : N, _ |- scan false (_ ?pc' ?e' _) = true => apply (IH pc' e'); assumption
+      end ].
+  Ltac ih_in :=
+    first
+    [ assumption
+    | reflexivity
+    | match goal with
+      | IH : forall pc : N, _ |- forallb fin_instr (_ ?pc' _) = true =>
+        first [ apply (proj2 (IH pc')); assumption
+              | apply (proj2 (proj1 (IH pc'))); assumption
+              | apply (proj2 (proj1 (proj2 (IH pc')))); assumption
+              | apply (proj2 (proj2 (proj2 (IH pc')))); assumption ]
+      end ].
   Ltac out_step :=
-    first [ rewrite scan_app by (first [eassumption | apply scan_of_nowr; auto using nowr_d_patterns, nowr_d_arm_head, nowr_cmp])
-          | progress cbn [scan app is_write negb andb] ].
+    first [ rewrite scan_app by ih_out
+          | progress cbn [scan app is_write negb andb]
+          | ih_out ].
+  Ltac in_step :=
+    first [ rewrite forallb_app | progress cbn [forallb app fin_instr andb] | rewrite d_call_fin
+          | match goal with |- context [forallb fin_instr ?c] => let H := fresh in assert (H : forallb fin_instr c = true) by ih_in; rewrite H; clear H end ].
 
   Theorem scan_all :
     (forall e, S_expr e) /\ (forall es, S_exprs es) /\ (forall fs, S_fields fs) /\ (forall s, S_stmt s)
@@ -391,6 +418,215 @@ Section ScanCode.
     apply syntax_mutind; unfold S_expr, S_exprs, S_fields, S_stmt, S_stmts, S_ostmts, S_ovals, S_earms, S_sarms, S_branches, both;
       intros; auto.
     all: autorewrite with deq.
-    all: idtac "REM". Show.
-  Abort.
+    all: repeat split; intros; repeat match goal with H : _ = true |- _ => progress cbn in H end; try discriminate; bools.
+    all: try solve [repeat out_step; auto].
+    all: try solve [repeat in_step; auto].
+    - destruct w; try discriminate. repeat in_step; auto.
+    - destruct (struct_fields_of p s) as [fs|]; [|reflexivity].
+      cbn [scan is_write negb andb]. rewrite scan_app by ih_out. apply scan_of_nowr.
+      rewrite forallb_app. replace (forallb nowr (map (fun f : ident * TypeKind => I_Identifier (fst f)) fs)) with true.
+      + destruct fs; reflexivity.
+      + induction fs; cbn; auto.
+    - destruct some; repeat out_step; auto.
+    - rewrite scan_app by ih_out. apply scan_of_nowr. cbn [forallb]. rewrite d_call_nowr. reflexivity.
+    - cbn [scan is_write negb andb]. rewrite scan_app by ih_out.
+      destruct (find _ (p_ffi p)); reflexivity.
+    - destruct fallback as [|ss]; cbv zeta; [rewrite app_nil_r; ih_out|].
+      unfold S_stmts, both in *. cbn in H2. repeat out_step; auto.
+    - cbv zeta. cbn [scan]. rewrite scan_plain by ih_in. destruct in_recall; reflexivity.
+    - cbv zeta. destruct vals as [|fs]; unfold S_fields, both in *; repeat in_step; auto.
+    - destruct is_debug; [|reflexivity]. repeat out_step; auto.
+  Qed.
 End ScanCode.
+
+(** ** What [Compile.compile] accepts: every body passed [Typing.check_function_like] in its context *)
+Section Accepted.
+  Variable p : policy.
+  Variable dbg : bool.
+
+  Definition fl_ok (g : tglobals) (cx : sctx) (params : list (ident * TypeKind)) (ret : option TypeKind) (body : stmts) : Prop :=
+    check_function_like p dbg g cx params ret body = ROk tt.
+
+  Definition cmd_ok (g : tglobals) (c : cmddef) : Prop :=
+    fl_ok g (CxPolicy c) [("this", TK_Struct (cmd_name c)); ("envelope", envelope_ty)] None (cmd_policy c)
+    /\ Forall (fun r => fl_ok g (CxRecall c)
+                          (rc_params r ++ [("this", TK_Struct (cmd_name c)); ("envelope", envelope_ty)])%list None (rc_body r))
+              (cmd_recalls c)
+    /\ fl_ok g (CxPure envelope_ty) [("this", TK_Struct (cmd_name c)); ("payload", TK_Bytes)] (Some envelope_ty) (cmd_seal c)
+    /\ fl_ok g (CxPure TK_Unit) [("this", TK_Struct (cmd_name c)); ("payload", TK_Bytes); ("envelope", envelope_ty)]
+             (Some TK_Unit) (cmd_open c).
+
+  Definition accepted (g : tglobals) : Prop :=
+    Forall (fun d => fl_ok g (CxPure (fn_ret d)) (fn_params d) (Some (fn_ret d)) (fn_body d)) (p_funs p)
+    /\ Forall (fun d => fl_ok g CxFinish (ff_params d) None (ff_body d)) (p_finfuns p)
+    /\ Forall (cmd_ok g) (p_cmds p)
+    /\ Forall (fun a => fl_ok g (CxAction (act_ret a)) (act_params a) (act_ret a) (act_body a)) (p_actions p).
+
+  Lemma fl_inv g cx cmd ir params ret body l st :
+    cs_err (c_function_like p dbg g cx cmd ir params ret body l st) = None ->
+    cs_err st = None /\ fl_ok g cx params ret body.
+  Proof.
+    unfold c_function_like, fl_ok. destruct (cs_err st) eqn:E; [intros H; rewrite E in H; discriminate|].
+    destruct (check_function_like p dbg g cx params ret body) as [[]|e]; [auto|].
+    intros H. cbn in H. destruct (cs_err (def_label l st)); discriminate.
+  Qed.
+
+  Lemma fold_inv {A} (f : cstate -> A -> cstate) (Q : A -> Prop) :
+    (forall st a, cs_err (f st a) = None -> cs_err st = None /\ Q a) ->
+    forall l st, cs_err (fold_left f l st) = None -> cs_err st = None /\ Forall Q l.
+  Proof.
+    intros Hf l. induction l as [|a l IH]; intros st H; cbn in *; [auto|].
+    destruct (IH _ H) as [H1 H2]. destruct (Hf _ _ H1). auto.
+  Qed.
+
+  Lemma fun_inv g st d : cs_err (c_function p dbg g d st) = None ->
+    cs_err st = None /\ fl_ok g (CxPure (fn_ret d)) (fn_params d) (Some (fn_ret d)) (fn_body d).
+  Proof. apply fl_inv. Qed.
+  Lemma finfun_inv g st d : cs_err (c_finish_function p dbg g d st) = None ->
+    cs_err st = None /\ fl_ok g CxFinish (ff_params d) None (ff_body d).
+  Proof.
+    unfold c_finish_function. intros H. eapply fl_inv.
+    destruct (cs_err (c_function_like _ _ _ _ _ _ _ _ _ _ _)) eqn:E in H; [rewrite E in H; discriminate|eassumption].
+  Qed.
+  Lemma action_inv g st a : cs_err (c_action p dbg g a st) = None ->
+    cs_err st = None /\ fl_ok g (CxAction (act_ret a)) (act_params a) (act_ret a) (act_body a).
+  Proof.
+    unfold c_action. intros H. eapply fl_inv.
+    destruct (cs_err (c_function_like _ _ _ _ _ _ _ _ _ _ _)) eqn:E in H; [rewrite E in H; discriminate|eassumption].
+  Qed.
+  Lemma emit_if_ok_inv i st :
+    cs_err (match cs_err st with Some _ => st | None => emit i st end) = None -> cs_err st = None.
+  Proof. destruct (cs_err st) eqn:E; [rewrite E; auto|auto]. Qed.
+  Lemma command_inv g st c : cs_err (c_command p dbg g c st) = None -> cs_err st = None /\ cmd_ok g c.
+  Proof.
+    unfold c_command, cmd_ok. cbv zeta. intros H.
+    apply fl_inv in H. destruct H as [H Hopen].
+    apply fl_inv in H. destruct H as [H Hseal].
+    match type of H with cs_err (match cs_err ?s with _ => _ end) = None => assert (H' : cs_err s = None) end.
+    { match type of H with cs_err (match cs_err ?s with _ => _ end) = None => destruct (cs_err s) eqn:E end;
+        [rewrite E in H; discriminate|reflexivity]. }
+    clear H.
+    apply (fold_inv _ (fun r => fl_ok g (CxRecall c)
+             (rc_params r ++ [("this", TK_Struct (cmd_name c)); ("envelope", envelope_ty)])%list None (rc_body r))) in H'.
+    - destruct H' as [H Hrec]. apply emit_if_ok_inv in H. apply fl_inv in H. destruct H as [H Hpol]. auto.
+    - intros st0 r H0. destruct (cs_err st0) eqn:E0; [rewrite E0 in H0; discriminate|].
+      apply emit_if_ok_inv in H0. apply fl_inv in H0. destruct H0. auto.
+  Qed.
+
+  Theorem compile_accepted x : Compile.compile p dbg = ROk x -> exists g, tglobals_of p = ROk g /\ accepted g.
+  Proof.
+    unfold Compile.compile. destruct (cs_err (compile_state p dbg)) eqn:E; [discriminate|]. intros _.
+    unfold compile_state in E. destruct (check_defs p); [|cbn in E; discriminate].
+    destruct (tglobals_of p) as [g|]; [|cbn in E; discriminate].
+    exists g. split; [reflexivity|].
+    apply (fold_inv _ _ (action_inv g)) in E. destruct E as [E Ha].
+    apply (fold_inv _ _ (command_inv g)) in E. destruct E as [E Hc].
+    apply (fold_inv _ _ (finfun_inv g)) in E. destruct E as [E Hff].
+    apply (fold_inv _ _ (fun_inv g)) in E. destruct E as [E Hf].
+    unfold accepted. auto.
+  Qed.
+End Accepted.
+
+(** ** C30, syntactic form, for whole policies *)
+Section Program.
+  Variable p : policy.
+  Variable dbg : bool.
+
+  Lemma fl_nw g cx params ret body :
+    fl_ok p dbg g cx params ret body -> is_finish cx = false -> nw_stmts body = true.
+  Proof.
+    unfold fl_ok, check_function_like. intros H Hc. rinv H.
+    eapply accepted_outside; eauto.
+  Qed.
+  Lemma fl_fin g params ret body : fl_ok p dbg g CxFinish params ret body -> fin_stmts_ok body = true.
+  Proof.
+    unfold fl_ok, check_function_like. intros H. rinv H.
+    eapply accepted_finish; eauto.
+  Qed.
+
+  Variable la : Label -> N.
+
+  Lemma nowr_defs (params : list (ident * TypeKind)) : forallb nowr (map (fun x => I_Def (fst x)) params) = true.
+  Proof. induction params; cbn; auto. Qed.
+
+  Lemma function_like_scan cmd ir pc params has_ret body :
+    nw_stmts body = true -> scan false (d_function_like p dbg la cmd ir pc params has_ret body) = true.
+  Proof.
+    intros H. unfold d_function_like. cbv zeta.
+    rewrite scan_nowr by apply nowr_defs.
+    assert (Hb : forall pc', scan false (d_stmts p dbg la cmd ir pc' body) = true).
+    { intros pc'. destruct (scan_all p dbg la cmd ir) as (_ & _ & _ & _ & Hs & _). apply (proj1 (Hs body pc')). exact H. }
+    destruct has_ret; cbn [app scan is_write negb andb]; rewrite scan_app by apply Hb; reflexivity.
+  Qed.
+
+  Lemma finish_function_code pc d :
+    fin_stmts_ok (ff_body d) = true ->
+    exists code, d_finish_function p dbg la pc d
+                 = (map (fun x => I_Def (fst x)) (rev (ff_params d)) ++ code ++ [I_Return])%list
+                 /\ forallb fin_instr code = true.
+  Proof.
+    intros H. unfold d_finish_function, d_function_like. cbv zeta.
+    eexists. split.
+    - cbn [app]. rewrite app_nil_r, <- app_assoc. reflexivity.
+    - destruct (scan_all p dbg la "" false) as (_ & _ & _ & _ & Hs & _). apply (proj2 (Hs (ff_body d) _)). exact H.
+  Qed.
+
+  Lemma recall_blocks_scan g c rs : forall pc,
+    Forall (fun r => fl_ok p dbg g (CxRecall c)
+                       (rc_params r ++ [("this", TK_Struct (cmd_name c)); ("envelope", envelope_ty)])%list None (rc_body r)) rs ->
+    scan false (d_recall_blocks p dbg la pc c rs) = true.
+  Proof.
+    induction rs as [|r rs IH]; intros pc H; cbn [d_recall_blocks]; [reflexivity|].
+    inversion H; subst. unfold d_recall_block. rewrite <- app_assoc.
+    rewrite scan_app by (apply function_like_scan; eapply fl_nw; eauto).
+    cbn [app scan is_write negb andb]. apply IH. assumption.
+  Qed.
+
+  Definition writes_only_in_finish_partial_stmt : Prop :=
+    forall x, Compile.compile p dbg = ROk x ->
+      (forall pc d, In d (p_funs p) -> scan false (d_function p dbg la pc d) = true)
+      /\ (forall pc c, In c (p_cmds p) -> scan false (d_command p dbg la pc c) = true)
+      /\ (forall pc a, In a (p_actions p) -> scan false (d_action p dbg la pc a) = true)
+      /\ (forall pc d, In d (p_finfuns p) ->
+            exists code, d_finish_function p dbg la pc d
+                         = (map (fun x => I_Def (fst x)) (rev (ff_params d)) ++ code ++ [I_Return])%list
+                         /\ forallb fin_instr code = true).
+
+  Theorem writes_only_in_finish_partial_proof : writes_only_in_finish_partial_stmt.
+  Proof.
+    intros x Hc. destruct (compile_accepted p dbg x Hc) as (g & _ & Hf & Hff & Hcm & Ha).
+    rewrite Forall_forall in Hf, Hff, Hcm, Ha. repeat split.
+    - intros pc d Hin. apply function_like_scan. eapply fl_nw; [apply (Hf d Hin)|reflexivity].
+    - intros pc c Hin. destruct (Hcm c Hin) as (Hpol & Hrec & Hseal & Hopen).
+      unfold d_command. cbv zeta. unfold d_policy_block. rewrite <- app_assoc.
+      rewrite scan_app by (apply function_like_scan; eapply fl_nw; [apply Hpol|reflexivity]).
+      cbn [app scan is_write negb andb].
+      rewrite scan_app by (eapply recall_blocks_scan; eauto).
+      rewrite scan_app by (apply function_like_scan; eapply fl_nw; [apply Hseal|reflexivity]).
+      apply function_like_scan. eapply fl_nw; [apply Hopen|reflexivity].
+    - intros pc a Hin. unfold d_action.
+      assert (Hn : nw_stmts (act_body a) = true) by (eapply fl_nw; [apply (Ha a Hin)|reflexivity]).
+      destruct (act_ret a); [apply function_like_scan; exact Hn|].
+      rewrite scan_app by (apply function_like_scan; exact Hn). reflexivity.
+    - intros pc d Hin. apply finish_function_code. eapply fl_fin. apply (Hff d Hin).
+  Qed.
+End Program.
+
+(** ** C30, full statement (about runs; NOT proved - see props/C30.v) *)
+Definition is_recall_ctx (c : CommandContext) : bool := match c with CC_Recall _ => true | _ => false end.
+Definition writes_only_in_finish_full_stmt : Prop :=
+  forall (St Wl : Type) (io : MachineIO St) (wl : St -> Wl) (dbg : bool) (p : policy) (is_debug : bool)
+         (code : list Instruction) (labels : list (Label * N)),
+    (* [wl]: the log of fact writes and effects; reads, foreign calls and (de)serialisation leave it alone *)
+    (forall s n k, wl (fst (io_fact_query io s n k)) = wl s) ->
+    (forall s a b st c, wl (fst (fst (io_call io s a b st c))) = wl s) ->
+    (forall s x, wl (fst (io_serialize io s x)) = wl s) ->
+    (forall s n b, wl (fst (io_deserialize io s n b)) = wl s) ->
+    Compile.compile p is_debug = ROk (code, labels) ->
+    forall m : Machine, progmem m = code ->
+    forall c, In c (p_cmds p) ->
+    forall rs0 : RunState St,
+      rs_pc rs0 = label_addr labels (mkLabel (cmd_name c) LT_CommandPolicy) -> rs_call_state rs0 = [] ->
+      forall n r rs', run dbg io m n rs0 = RunExited r rs' ->
+        (r = ER_Panic \/ (r = ER_Check /\ is_recall_ctx (rs_ctx rs') = false)) ->
+        wl (rs_io rs') = wl (rs_io rs0).
